@@ -11,6 +11,12 @@
 (* (k/2 by default, so odd k are fractions) - every query below depends    *)
 (* on numbers only through = and <.                                        *)
 (*                                                                         *)
+(* A document is a partial function from paths to terms.  "d carries no   *)
+(* value under g.h" has several concrete shapes in a stored document - g   *)
+(* missing, g an empty map, g a map with other keys, g a text or a number  *)
+(* (of the term universe) - and the binding rotates through all of them:   *)
+(* they are one abstract document.                                         *)
+(*                                                                         *)
 (* Firm and open values.  The value a live document d has for a path f is  *)
 (* FIRM if f was registered when d was (last) added and has not been       *)
 (* removed since: the index must report it.  It is OPEN if f was removed   *)
